@@ -100,6 +100,9 @@ pub fn fuzz_stage(ctx: &Arc<Ctx>, prop: &Prop, runs_per_worker: u64) {
             let _ = std::fs::write(corpus.join(&c.file), &c.bytes);
         }
         let workers = ctx.threads;
+        // the budget is stated for the slow targets (enc, rs, bitmap: 10^2..10^3 executions per second
+        // and worker); the byte-level targets are two orders of magnitude faster
+        let runs_per_worker = if matches!(*t, "stream" | "script") { runs_per_worker * 20 } else { runs_per_worker };
         let seed = (splitmix(ctx.seed ^ fnv64(t.as_bytes())) % 0x7fff_fffe + 1).to_string();
         let t0 = std::time::Instant::now();
         let status = Command::new(&bin)
